@@ -37,6 +37,9 @@ pub mod h_agree;
 pub mod h_hist;
 pub mod h_records;
 pub mod h_completion;
+pub mod h_provk;
+pub mod h_cfgk;
+pub mod h_scank;
 pub mod oracle { include!("gen/oracle.rs"); }
 
 pub mod registry;
